@@ -1,0 +1,17 @@
+//go:build verif
+
+// Package verifhook carries observation points for external verification
+// harnesses. It is compiled only with the "verif" build tag; without the tag
+// every hook call in the library is an empty inlined function.
+package verifhook
+
+import "bytes"
+
+// Pool is called by internal/sync.BufferPool: ev is "get" (after a buffer was
+// taken) or "put" (before it is reset and handed back). A hook may block: it
+// is then a scheduling gate.
+var Pool func(ev string, pool any, buf *bytes.Buffer)
+
+// Once is called by internal/sync.ErrOnce / ErrOnceWithValue around the guarded
+// section: ev is "enter" or "leave".
+var Once func(ev string, once any)
